@@ -109,6 +109,17 @@ func (op MultiStoreProofOp) Run(args [][]byte) ([][]byte, error) {
 	}
 
 	value := args[0]
+
+	// The root is computed over a map keyed by store name (a later entry of a name replaces an earlier one) while
+	// the substore below is looked up by scanning for the first entry of its name: with a name listed twice the
+	// two would disagree, and the root would vouch for a substore hash it does not contain.
+	seen := make(map[string]struct{}, len(op.Proof.StoreInfos))
+	for _, si := range op.Proof.StoreInfos {
+		if _, dup := seen[si.Name]; dup {
+			return nil, errors.Errorf("substore %v is listed more than once in the multistore proof", si.Name)
+		}
+		seen[si.Name] = struct{}{}
+	}
 	root := op.Proof.ComputeRootHash()
 
 	for _, si := range op.Proof.StoreInfos {
